@@ -123,20 +123,30 @@ fn gen_cfg(family: &str, rng: &mut Rng, case: u64) -> EngCfg {
             cfg.slots = *rng.pick(&[1usize, 1, 2]);
             cfg.apps = 2 + rng.usize_below(2);
             cfg.reqs_per_app = 2 + rng.usize_below(3);
+            // a transmission that fails (error / partial send) inside the window in which the request
+            // is given up is part of "at any moment"
+            cfg.send_fail_pct = *rng.pick(&[0u64, 0, 30, 100]);
             if case % 2 == 0 {
                 // Systematic part: the bounded space "1 slot, competitor + victim, one or two
                 // requests each" with ONE forced switch at step i to actor t, everything else
-                // deterministic (lowest actor id first). i and t are enumerated by the case number,
-                // so the deadline (clock actor), the drop of the future (victim), TX and RX are each
-                // placed at every yield-point index of the send/receive path.
-                let k = case / 2;
+                // deterministic (lowest actor id first). The space (step i < 160) x (actor t: TX, RX,
+                // clock, competitor, victim) x (1|2 requests) x (retries 0|1|2) x (all lost | none
+                // lost) x (abandon never | always) x (early delivery) x (send ok | first send of every
+                // frame fails) has 115200 points; case number k visits point (k * 48271) mod 115200,
+                // a bijection, so a run of n sweep cases visits n distinct points spread evenly over
+                // every dimension and 115200 cases visit them all.
+                const SPACE: u64 = SWEEP_STEPS * 5 * 2 * 72;
+                let p = (case / 2).wrapping_mul(48271) % SPACE;
+                let step = p % SWEEP_STEPS;
+                let to = p / SWEEP_STEPS % 5;
+                let reqs = p / (SWEEP_STEPS * 5) % 2;
+                let variant = p / (SWEEP_STEPS * 5 * 2);
                 cfg.slots = 1;
                 cfg.apps = 2;
-                cfg.reqs_per_app = 1 + (k / (SWEEP_STEPS * 5) % 2) as usize;
+                cfg.reqs_per_app = 1 + reqs as usize;
                 cfg.max_dgrams = 1;
                 cfg.wire_order = 0;
                 cfg.dup_pct = 0;
-                let variant = k / (SWEEP_STEPS * 5 * 2);
                 cfg.deadlines = Some(DeadlineCfg {
                     timeout_us: 100,
                     retries: (variant % 3) as usize,
@@ -144,7 +154,8 @@ fn gen_cfg(family: &str, rng: &mut Rng, case: u64) -> EngCfg {
                     abandon_any_pct: if variant / 6 % 2 == 0 { 0 } else { 100 },
                     early_delivery: variant / 12 % 2 == 1,
                 });
-                cfg.policy = Policy::PreemptAt { steps: vec![k % SWEEP_STEPS], to: vec![(k / SWEEP_STEPS % 5) as usize], lowest_first: true };
+                cfg.send_fail_pct = if variant / 24 % 3 == 0 { 0 } else { 100 };
+                cfg.policy = Policy::PreemptAt { steps: vec![step], to: vec![to as usize], lowest_first: true };
                 cfg.sweep = true;
             }
         }
@@ -187,6 +198,12 @@ fn record(sh: &mut Shard, prop: &str, case: u64, cfg: &EngCfg, seed: u64, res: &
         sh.count("cfg.systematic_single_preemption_sweep");
         if let Policy::PreemptAt { steps, to, .. } = &cfg.policy {
             sh.distinct_aux(0x5EE9_0000_0000 | (steps[0] << 8) | to[0] as u64);
+            // full sweep points (all dimensions) are distinct by construction (bijection on the case
+            // number) as long as fewer than 115200 sweep cases run
+            sh.count("sweep_points_of_115200");
+            if cfg.send_fail_pct > 0 {
+                sh.count("sweep_points_with_failing_first_send");
+            }
         }
     }
     if let Some(d) = &cfg.deadlines {
